@@ -1,13 +1,237 @@
 /-
-  C11 — Matrix URIs round-trip through text and parsing them never panics. (preliminary)
+  C11 — Matrix URIs round-trip through text and parsing them never panics.
+  Property theorems only; helper lemmas live in `Lemmas/MatrixUri*.lean`.
+
+  Reading guide. `Model/MatrixUri.lean` models `matrix_uri.rs` and `percent_encode.rs` on bytes:
+  `percentEncode set`, `percentDecode`, `parseWithSigil`, `parseWithType`, `toStringWithSigil`,
+  `toStringWithType`, `parseTo`/`formatTo` (`MatrixToUri::parse` / `Display`), `parseUri`/`formatUri`
+  (`MatrixUri::parse` / `Display`). `Res` has the outcomes `ok`, `err`, `panic`.
+  Parameters: `V : Validators` (the identifier parsers; the theorems hold for *every* `V`) and
+  `U : UrlParser` (`url::Url::parse`; assumptions `UrlKeepsSafeText`, `UrlReturnsBytes` from
+  `Spec/MatrixUri.lean`, both proven for the reference `urlParseRef` that the check compares with the
+  real `Url::parse` on every run). `ToUriOk V u` / `UriOk V u` (`Spec/MatrixUri.lean`) say that a
+  value is one the library's types can hold: identifiers accepted by `V`, carrying their sigil,
+  valid UTF-8; servers accepted by `V.server`; a custom action is not `join`/`chat`.
 -/
-import RumaModel.Lemmas.MatrixUriId
+import RumaModel.Lemmas.MatrixUriUrl
 namespace Ruma.Props.C11
 open Ruma Ruma.MatrixUri Ruma.Spec.MatrixUri
 
+/-! ## Percent-coding -/
+
+/-- For an arbitrary encode set: decoding inverts encoding on every byte string **iff** `%` is in
+the set or every hex digit is in the set. (With `%` left bare and some hex digit left bare,
+`%` + that digit twice is a counterexample; if all hex digits are always escaped, a bare `%` can
+never be followed by two hex digits.) -/
+theorem percent_roundtrip_iff (set : Nat → Bool) :
+    (∀ b, Bytes b → percentDecode (percentEncode set b) = b) ↔
+      (set 37 = true ∨ ∀ c, (hexVal c).isSome = true → set c = true) := by
+  constructor
+  · intro h
+    cases h37 : set 37 with
+    | true => exact Or.inl rfl
+    | false =>
+      refine Or.inr (fun c hc => ?_)
+      cases hs : set c with
+      | true => rfl
+      | false =>
+        obtain ⟨x, hx⟩ := Option.isSome_iff_exists.mp hc
+        have hlt := hexVal_lt_128 c x hx
+        exact absurd (h [37, c, c] (by intro y hy; simp at hy; rcases hy with rfl | rfl <;> omega))
+          (percent_roundtrip_fails set c x hx h37 hs)
+  · rintro (h | h)
+    · exact percent_roundtrip_of_pct set h
+    · exact percent_roundtrip_of_hex set h
+
+/-- The form in DESIGN.md: for every encode set that leaves at least one hex digit unescaped (every
+set in use does), decoding inverts encoding **iff `%` is in the set**. -/
+theorem percent_roundtrip (set : Nat → Bool) (c : Nat) (hc : (hexVal c).isSome = true)
+    (hfree : set c = false) :
+    (∀ b, Bytes b → percentDecode (percentEncode set b) = b) ↔ set 37 = true := by
+  rw [percent_roundtrip_iff]
+  constructor
+  · rintro (h | h)
+    · exact h
+    · rw [h c hc] at hfree; cases hfree
+  · exact Or.inl
+
+/-- The repaired `PATH_PERCENT_ENCODE_SET` and the `QUERY_VALUE_PERCENT_ENCODE_SET`: decoding
+inverts encoding, unconditionally. -/
 theorem percent_roundtrip_path (b : Str) (hb : Bytes b) :
     percentDecode (percentEncode pathSet b) = b :=
-  percent_roundtrip_of_pct pathSet (by decide) b hb
+  (percent_roundtrip pathSet 65 (by decide) (by decide)).mpr (by decide) b hb
 
+theorem percent_roundtrip_query (b : Str) (hb : Bytes b) :
+    percentDecode (percentEncode queryValueSet b) = b :=
+  (percent_roundtrip queryValueSet 65 (by decide) (by decide)).mpr (by decide) b hb
+
+/-- Why the set before repair F8 failed: it has no `%`, so by `percent_roundtrip` some byte string
+does not survive; `%41` is one (it comes back as `A`). -/
+theorem percent_roundtrip_old_set_fails :
+    ¬ (∀ b, Bytes b → percentDecode (percentEncode pathSetOld b) = b) ∧
+    percentDecode (percentEncode pathSetOld (bs "%41")) = bs "A" := by
+  refine ⟨fun h => ?_, by decide⟩
+  have := (percent_roundtrip pathSetOld 65 (by decide) (by decide)).mp h
+  revert this; decide
+
+/-- An encoded path segment or query value contains no `/`, `?`, `#` and no non-ASCII byte
+(nor, for query values, `&`, `+`, `=`): it cannot be mistaken for a delimiter of the URI. -/
+theorem encoded_has_no_delims (s : Str) (hs : Bytes s) :
+    (∀ c ∈ percentEncode pathSet s, isDelim c = false ∧ c < 128) ∧
+    (∀ c ∈ percentEncode queryValueSet s, isDelim c = false ∧ c < 128 ∧ c ≠ 38 ∧ c ≠ 43 ∧ c ≠ 61) := by
+  constructor
+  · intro c hc
+    have := encPath_byte s hs c hc
+    have h1 := this.1; have h2 := this.2
+    simp [urlSafe] at h1
+    simp [isDelim]; omega
+  · intro c hc
+    have := encQuery_byte s hs c hc
+    have h1 := this.1
+    simp [urlSafe] at h1
+    simp [isDelim]; omega
+
+/-- The model's percent-decoding agrees with RFC 3986's reading of a percent-encoded text. -/
+theorem percentDecode_denotes (t b : Str) (h : PctDenotes t b) : percentDecode t = b := by
+  induction h with
+  | nil => rfl
+  | lit c hc _ ih => rw [percentDecode_cons_ne c _ hc, ih]
+  | esc h l x y hx hy _ ih => rw [percentDecode_escape h l x y _ hx hy, ih]
+
+/-- What the encoder writes with the repaired sets is a percent-encoding of its input in the sense
+of RFC 3986 (no bare `%`). -/
+theorem percentEncode_is_rfc3986 (b : Str) (hb : Bytes b) :
+    PctDenotes (percentEncode pathSet b) b ∧ PctDenotes (percentEncode queryValueSet b) b :=
+  ⟨percentEncode_denotes pathSet (by decide) b hb, percentEncode_denotes queryValueSet (by decide) b hb⟩
+
+/-! ## The `type` table of the `matrix:` scheme -/
+
+/-- The types written by `to_string_with_type` and read by `parse_with_type` are the Matrix spec's
+table (`u` ↔ `@`, `r` ↔ `#`, `roomid` ↔ `!`, `e` ↔ `$`). -/
+theorem type_table_eq_spec :
+    (∀ sg ty, typeOfSigil sg = some ty → sigilOfType ty = some sg) ∧
+    sigilOfType (bs "user") = some sigilUser ∧ sigilOfType (bs "room") = some sigilAlias ∧
+    sigilOfType (bs "event") = some sigilEvent := by
+  refine ⟨?_, by decide, by decide, by decide⟩
+  intro sg ty h
+  unfold typeOfSigil at h
+  repeat' split at h
+  all_goals first | (cases h; subst_vars; decide) | cases h
+
+/-! ## Round trips -/
+
+/-- `matrix.to`: formatting a well-formed value and parsing the text gives the value back — for
+every validator record `V`, every identifier it accepts (any bytes: reserved, `%`, non-ASCII),
+any list of via servers. -/
+theorem matrixTo_roundtrip (V : Validators) (u : ToUri) (h : ToUriOk V u) :
+    parseTo V (formatTo u) = .ok u :=
+  parseTo_formatTo V u h
+
+/-- `matrix:`: formatting a well-formed value does not panic, and parsing the text gives the value
+back — for every `V`, any via servers, any action; `Url::parse` enters through `UrlKeepsSafeText`. -/
+theorem matrixUri_roundtrip (U : UrlParser) (hU : UrlKeepsSafeText U) (V : Validators) (u : Uri)
+    (h : UriOk V u) :
+    ∃ text, formatUri u = .ok text ∧ parseUri U V text = .ok u :=
+  parseUri_formatUri U hU V u h
+
+/-- Parsing never panics: for every byte string, every `V`, every behaviour of `Url::parse`. -/
+theorem parse_never_panics (U : UrlParser) (V : Validators) (s : Str) :
+    parseTo V s ≠ .panic ∧ parseUri U V s ≠ .panic ∧
+    parseWithSigil V s ≠ .panic ∧ parseWithType V s ≠ .panic :=
+  ⟨parseTo_ne_panic V s, parseUri_ne_panic U V s, parseWithSigil_ne_panic V s,
+    parseWithType_ne_panic V s⟩
+
+/-- Formatting a well-formed `matrix:` value never reaches `[1..]` on an empty identifier nor the
+`unreachable` in `RoomOrAliasId::variant` (formatting `matrix.to` has no such site). -/
+theorem format_never_panics (V : Validators) (u : Uri) (h : UriOk V u) :
+    formatUri u ≠ .panic ∧ formatUri u ≠ .err := by
+  rw [formatUri_eq V u h.1]
+  exact ⟨fun e => (by cases e), fun e => (by cases e)⟩
+
+/-- What a successful parse returns is a well-formed value. -/
+theorem parsed_is_wellformed (U : UrlParser) (hUb : UrlReturnsBytes U) (V : Validators) (s : Str)
+    (hs : Bytes s) :
+    (∀ u, parseTo V s = .ok u → ToUriOk V u) ∧ (∀ u, parseUri U V s = .ok u → UriOk V u) :=
+  ⟨fun u h => parseTo_ok V s u hs h, fun u h => parseUri_ok U hUb V s u h⟩
+
+/-- A successfully parsed URI re-formats to text that parses to the same value. -/
+theorem parse_format_parse (U : UrlParser) (hU : UrlKeepsSafeText U) (hUb : UrlReturnsBytes U)
+    (V : Validators) (s : Str) (hs : Bytes s) :
+    (∀ u, parseTo V s = .ok u → parseTo V (formatTo u) = .ok u) ∧
+    (∀ u, parseUri U V s = .ok u → ∃ text, formatUri u = .ok text ∧ parseUri U V text = .ok u) :=
+  ⟨fun u h => parseTo_format_parse V s u hs h,
+    fun u h => parseUri_format_parse U hU hUb V s u h⟩
+
+/-- The two assumptions about `Url::parse` are satisfiable: the executable reference (compared with
+the real `Url::parse` on every run, request `c11.url`) meets both. -/
+theorem url_assumptions_hold_for_reference :
+    UrlKeepsSafeText urlParseRef ∧ UrlReturnsBytes urlParseRef :=
+  ⟨urlParseRef_keeps, urlParseRef_bytes⟩
+
+/-! ## The hypotheses are satisfiable on non-trivial inputs -/
+
+/-- Validators that only look at the sigil (any server accepted). -/
+def exV : Validators :=
+  ⟨fun s => s.head? == some 64, fun s => s.head? == some 33, fun s => s.head? == some 35,
+    fun s => s.head? == some 36, fun _ => true⟩
+
+/-- Event `$e/+=` in room alias `#é/?%:h`, two via servers, custom action `a&b=c d`. -/
+def exUri : Uri :=
+  ⟨.event ([35, 195, 169] ++ bs "/?%:h") (bs "$e/+="), [bs "[::1]:80", bs "h"],
+    some (.custom (bs "a&b=c d"))⟩
+
+def exTo : ToUri := ⟨exUri.id, exUri.via⟩
+
+theorem exUri_ok : UriOk exV exUri := by
+  have hb : ∀ s : Str, s.all (· < 256) = true → Bytes s :=
+    fun s h b hb => by simpa using List.all_eq_true.mp h b hb
+  refine ⟨⟨Or.inr ⟨⟨hb _ (by decide), by decide⟩, by decide, by decide⟩,
+    ⟨hb _ (by decide), by decide⟩, by decide, by decide⟩, ?_, ?_⟩
+  · intro s hs
+    simp [exUri] at hs
+    rcases hs with rfl | rfl <;> exact ⟨⟨hb _ (by decide), by decide⟩, rfl⟩
+  · intro a ha
+    simp [exUri] at ha; subst ha
+    exact ⟨⟨hb _ (by decide), by decide⟩, by decide, by decide⟩
+
+example : ToUriOk exV exTo := ⟨exUri_ok.1, exUri_ok.2.1⟩
+
+/-- The conclusions on that value, computed: the texts are what `Display` writes. -/
+example : formatTo exTo = bs "https://matrix.to/#/%23%C3%A9%2F%3F%25:h/$e%2F+=?via=[::1]:80&via=h" := by
+  decide
+example : formatUri exUri =
+    .ok (bs "matrix:r/%C3%A9%2F%3F%25:h/e/e%2F+=?via=[::1]:80&via=h&action=a%26b%3Dc%20d") := by
+  decide
+example : parseUri urlParseRef exV
+    (bs "matrix:r/%C3%A9%2F%3F%25:h/e/e%2F+=?via=[::1]:80&via=h&action=a%26b%3Dc%20d") = .ok exUri := by
+  decide
+
+/-- `parse_format_parse` is not vacuous: a text that parses, with an escaped `&` in the action. -/
+example : parseUri urlParseRef exV (bs "matrix:u/a:h?action=a%26b&via=h") =
+    .ok ⟨.user (bs "@a:h"), [bs "h"], some (.custom (bs "a&b"))⟩ := by decide
+example : parseTo exV (bs "https://matrix.to/#/$e/%23a:h?via=h") =
+    .ok ⟨.event (bs "#a:h") (bs "$e"), [bs "h"]⟩ := by decide
+/-- The F7 witnesses on the model: an error, not a panic. -/
+example : parseTo exV (bs "https://matrix.to/#///$e") = .err := by decide
+example : parseTo exV (bs "https://matrix.to/#/!r:x///") = .err := by decide
+/-- The F16 witness: the room id `!` round-trips through `matrix:roomid/`. -/
+example : formatUri ⟨.room (bs "!"), [], none⟩ = .ok (bs "matrix:roomid/") := by decide
+example : parseUri urlParseRef exV (bs "matrix:roomid/") = .ok ⟨.room (bs "!"), [], none⟩ := by decide
+
+#print axioms percent_roundtrip_iff
+#print axioms percent_roundtrip
 #print axioms percent_roundtrip_path
+#print axioms percent_roundtrip_query
+#print axioms percent_roundtrip_old_set_fails
+#print axioms encoded_has_no_delims
+#print axioms percentDecode_denotes
+#print axioms percentEncode_is_rfc3986
+#print axioms type_table_eq_spec
+#print axioms matrixTo_roundtrip
+#print axioms matrixUri_roundtrip
+#print axioms parse_never_panics
+#print axioms format_never_panics
+#print axioms parsed_is_wellformed
+#print axioms parse_format_parse
+#print axioms url_assumptions_hold_for_reference
 end Ruma.Props.C11
